@@ -33,41 +33,52 @@ DEFAULT_HYPER = {"lr_a": 0.8, "lr_b": -0.5, "tc_a": 7.0, "tc_b": 11.0, "lr_a3": 
                  "tc_b_slow": 40.0, "tc_elig": 15.0, "trace_mode": "cumulative", "delayed": False}
 
 
-def build_trainer(name, hyper, batch_reduction):
+def _tensorize(kw, which):
+    """kernel hyper-parameters as 0-dim tensors (documented: stored as buffers on the cell state)"""
+    return {k: (torch.tensor(float(v), dtype=torch.float64) if k in which else v) for k, v in kw.items()}
+
+
+def trainer_args(name, hyper):
+    """-> (positional hyper-parameters as a dict of the documented keyword names, forward-less)"""
     h = {**DEFAULT_HYPER, **hyper}
     a, b, ta, tb = h["lr_a"], h["lr_b"], h["tc_a"], h["tc_b"]
-    kw = {"batch_reduction": batch_reduction}
-    if name == "STDP":     # a: post, b: pre
-        return learn.STDP(a, b, ta, tb, delayed=h["delayed"], trace_mode=h["trace_mode"], **kw)
+    if name in ("STDP", "MSTDP"):
+        return {"lr_post": a, "lr_pre": b, "tc_post": ta, "tc_pre": tb, "delayed": h["delayed"], "trace_mode": h["trace_mode"]}
     if name == "TripletSTDP":
-        return learn.TripletSTDP(a, h["lr_a3"], b, h["lr_b3"], ta, h["tc_a_slow"], tb, h["tc_b_slow"], delayed=h["delayed"],
-                                 trace_mode=h["trace_mode"], **kw)
-    if name == "MSTDP":
-        return learn.MSTDP(a, b, ta, tb, delayed=h["delayed"], trace_mode=h["trace_mode"], **kw)
+        return {"lr_post_pair": a, "lr_post_triplet": h["lr_a3"], "lr_pre_pair": b, "lr_pre_triplet": h["lr_b3"],
+                "tc_post_fast": ta, "tc_post_slow": h["tc_a_slow"], "tc_pre_fast": tb, "tc_pre_slow": h["tc_b_slow"],
+                "delayed": h["delayed"], "trace_mode": h["trace_mode"]}
     if name == "MSTDPET":
-        return learn.MSTDPET(a, b, ta, tb, h["tc_elig"], trace_mode=h["trace_mode"], **kw)
-    kpost, kpre = inff.exp_stdp_post_kernel, inff.exp_stdp_pre_kernel
-    kargs = ({"learning_rate": a, "time_constant": ta}, {"learning_rate": b, "time_constant": tb})
-    if name == "KernelSTDP":
-        return learn.KernelSTDP(kpost, kpre, *kargs, delayed=h["delayed"], **kw)
-    if name == "DelayAdjustedKernelSTDP":
-        return learn.DelayAdjustedKernelSTDP(kpost, kpre, *kargs, **kw)
-    if name == "DelayAdjustedKernelSTDPD":
-        return learn.DelayAdjustedKernelSTDPD(kpost, kpre, *kargs, **kw)
-    if name == "DelayAdjustedSTDP":    # a: causal (pos) branch, b: anti-causal (neg) branch
-        return learn.DelayAdjustedSTDP(a, b, ta, tb, **kw)
-    if name == "DelayAdjustedSTDPD":   # a: causal branch rate (eta_-), b: anti-causal branch rate (eta_+)
-        return learn.DelayAdjustedSTDPD(a, b, ta, tb, **kw)
-    if name == "DelayAdjustedMSTDP":
-        return learn.DelayAdjustedMSTDP(a, b, ta, tb, **kw)
-    if name == "DelayAdjustedMSTDPD":
-        return learn.DelayAdjustedMSTDPD(a, b, ta, tb, **kw)
+        return {"lr_post": a, "lr_pre": b, "tc_post": ta, "tc_pre": tb, "tc_eligibility": h["tc_elig"], "trace_mode": h["trace_mode"]}
+    if name in ("KernelSTDP", "DelayAdjustedKernelSTDP", "DelayAdjustedKernelSTDPD"):
+        tk = h.get("tensor_kwargs", ())
+        kw = {"kernel_post": inff.exp_stdp_post_kernel, "kernel_pre": inff.exp_stdp_pre_kernel,
+              "kernel_post_kwargs": _tensorize({"learning_rate": a, "time_constant": ta}, [k[5:] for k in tk if k.startswith("post_")]),
+              "kernel_pre_kwargs": _tensorize({"learning_rate": b, "time_constant": tb}, [k[4:] for k in tk if k.startswith("pre_")])}
+        if name == "KernelSTDP":
+            kw["delayed"] = h["delayed"]
+        return kw
+    if name in ("DelayAdjustedSTDP", "DelayAdjustedMSTDP"):      # a: causal (pos) branch, b: anti-causal (neg) branch
+        return {"lr_pos": a, "lr_neg": b, "tc_pos": ta, "tc_neg": tb}
+    if name in ("DelayAdjustedSTDPD", "DelayAdjustedMSTDPD"):    # a: causal branch rate (eta_-), b: anti-causal branch rate (eta_+)
+        return {"lr_neg": a, "lr_pos": b, "tc_neg": ta, "tc_pos": tb}
     raise ValueError(name)
+
+
+_DUMMY = {"lr_a": 0.123, "lr_b": 0.077, "tc_a": 3.0, "tc_b": 4.0, "lr_a3": 0.05, "lr_b3": 0.05, "tc_a_slow": 9.0, "tc_b_slow": 9.5,
+          "tc_elig": 5.0, "trace_mode": "cumulative", "delayed": False}
+
+
+def build_trainer(name, hyper, batch_reduction, per_cell=False):
+    """per_cell=True: the trainer is constructed with unrelated defaults; the real hyper-parameters are meant to be passed
+    to register_cell (documented: constructor arguments can be overridden on a cell-by-cell basis)"""
+    kw = trainer_args(name, _DUMMY if per_cell else hyper)
+    return getattr(learn, name)(**kw, batch_reduction=(torch.mean if per_cell else batch_reduction))
 
 
 class Harness:
     def __init__(self, trainer, conn_kind, dt=1.0, B=1, delay_steps=None, seed=0, batch_reduction=torch.sum, hyper=None,
-                 dtype=None, syn="delta", max_delay_steps=None):
+                 dtype=None, syn="delta", max_delay_steps=None, per_cell=False):
         self.name, self.kind, self.dt, self.B = trainer, conn_kind, dt, B
         self.hyper = {**DEFAULT_HYPER, **(hyper or {})}
         if trainer in NEEDS_DELAY and delay_steps is None:
@@ -81,8 +92,11 @@ class Harness:
         self.neuron = ExactNeuron(self.conn.outshape, dt, rest_v=-60.0, thresh_v=-50.0, batch_size=B)
         self.layer = neural.Serial(self.conn, self.neuron)
         self.conn.updater = self.conn.defaultupdater()
-        self.trainer = build_trainer(trainer, self.hyper, batch_reduction)
-        self.trainer.register_cell("c", self.layer.cell)
+        self.trainer = build_trainer(trainer, self.hyper, batch_reduction, per_cell=per_cell)
+        if per_cell:
+            self.trainer.register_cell("c", self.layer.cell, batch_reduction=batch_reduction, **trainer_args(trainer, self.hyper))
+        else:
+            self.trainer.register_cell("c", self.layer.cell)
         if dtype is not None:
             self.layer.to(dtype)
             self.trainer.to(dtype)
